@@ -222,6 +222,9 @@ func c17Callbacks(c *Ctx, r *Report, pkgRel string) map[string]bool {
 			// the state on entry to the store's block (the guards that dominate it) must prove the
 			// stored value non-nil
 			state := fr.blockIn[s.instr.Block().Index]
+			if at, ok := fr.stateAt[s.instr]; ok {
+				state = at // includes what loads earlier in the block established
+			}
 			if len(state) > 0 && !nonNilAt(fr, state, fr.val(s.val), nil) {
 				ok = false
 			}
@@ -384,6 +387,15 @@ func c17Callbacks(c *Ctx, r *Report, pkgRel string) map[string]bool {
 			id := fnID(fn)
 			desc := describeAV(cr.dyn)
 			ok := nonNilAt(fr, cr.state, cr.dyn, invariant)
+			if !ok {
+				// a callback copied into a local variable that this closure captures: the variable
+				// holds a proven non-nil value when the closure is created and is not assigned again
+				if ld, isLd := cr.instr.Common().Value.(*ssa.UnOp); isLd {
+					if fv, isFV := ld.X.(*ssa.FreeVar); isFV && capturedNonNil(fv, get) {
+						ok = true
+					}
+				}
+			}
 			if !ok {
 				fired[fn.Name()] = true
 			}
@@ -1150,4 +1162,108 @@ func paramPolarity(cond ssa.Value, p *ssa.Parameter) (bool, bool) {
 		}
 	}
 	return false, false
+}
+
+// capturedNonNil: free variable fv of a closure is bound, at the single place the closure is
+// created, to a local cell of the enclosing function whose value there is proven non-nil (abstract
+// interpretation of the enclosing function), that no closure capturing the cell ever stores to,
+// and that the enclosing function does not assign again once the closure exists.
+func capturedNonNil(fv *ssa.FreeVar, get func(*ssa.Function) (*Analysis, *Frame)) bool {
+	cl := fv.Parent()
+	parent := cl.Parent()
+	if parent == nil {
+		return false
+	}
+	idx := -1
+	for i, v := range cl.FreeVars {
+		if v == fv {
+			idx = i
+		}
+	}
+	var mk *ssa.MakeClosure
+	n := 0
+	for _, b := range parent.Blocks {
+		for _, in := range b.Instrs {
+			if m, ok := in.(*ssa.MakeClosure); ok && m.Fn == ssa.Value(cl) {
+				mk = m
+				n++
+			}
+		}
+	}
+	if idx < 0 || n != 1 || idx >= len(mk.Bindings) {
+		return false
+	}
+	if outer, isFV := mk.Bindings[idx].(*ssa.FreeVar); isFV {
+		// captured through an enclosing closure that itself only reads it
+		return freeVarReadOnly(outer, 0) && capturedNonNil(outer, get)
+	}
+	cell, ok := mk.Bindings[idx].(*ssa.Alloc)
+	if !ok || cell.Referrers() == nil {
+		return false
+	}
+	var readOnly func(v ssa.Value, depth int) bool
+	readOnly = func(v ssa.Value, depth int) bool {
+		refs := v.Referrers()
+		if refs == nil {
+			return true
+		}
+		if depth > 4 {
+			return false
+		}
+		for _, r := range *refs {
+			switch x := r.(type) {
+			case *ssa.UnOp, *ssa.DebugRef:
+			case *ssa.MakeClosure:
+				f2, ok := x.Fn.(*ssa.Function)
+				if !ok {
+					return false
+				}
+				for i, bv := range x.Bindings {
+					if bv == v && (i >= len(f2.FreeVars) || !readOnly(f2.FreeVars[i], depth+1)) {
+						return false
+					}
+				}
+			default:
+				return false
+			}
+		}
+		return true
+	}
+	for _, r := range *cell.Referrers() {
+		switch x := r.(type) {
+		case *ssa.Store:
+			if x.Addr != ssa.Value(cell) {
+				return false
+			}
+			// no assignment once the closure exists
+			if x.Block() == mk.Block() && instrBefore(mk, x) || x.Block() != mk.Block() && blockReaches(mk.Block(), x.Block()) {
+				return false
+			}
+		case *ssa.UnOp, *ssa.DebugRef:
+		case *ssa.MakeClosure:
+			f2, ok := x.Fn.(*ssa.Function)
+			if !ok {
+				return false
+			}
+			for i, bv := range x.Bindings {
+				if bv == ssa.Value(cell) && (i >= len(f2.FreeVars) || !readOnly(f2.FreeVars[i], 0)) {
+					return false
+				}
+			}
+		default:
+			return false
+		}
+	}
+	_, pfr := get(parent)
+	st := pfr.stateAt[mk]
+	p, ok := pfr.vals[cell].(APtr)
+	if !ok || p.obj == nil {
+		return false
+	}
+	if st == nil {
+		st = pfr.blockIn[mk.Block().Index]
+	}
+	return pfr.forEachPathValue(p.obj, "", mk, st, func(cj Conj, v AV) bool {
+		return nonNilAt(pfr, DNF{cj}, v, nil)
+	})
 }
